@@ -27,7 +27,7 @@ pub fn riscv_get_uncond_completions() -> JsValue {
 }
 
 trait FileReading {
-    fn get_full_url(&mut self, path: &str, uuid: Uuid) -> String;
+    fn get_full_url(&mut self, path: &str, uuid: Uuid) -> Option<String>;
     fn get_imports(&mut self, base: &str) -> HashSet<String>;
 }
 
@@ -35,11 +35,12 @@ impl<T> FileReading for RVParser<T>
 where
     T: CanGetURIString + Clone + FileReader,
 {
-    fn get_full_url(&mut self, path: &str, uuid: Uuid) -> String {
+    fn get_full_url(&mut self, path: &str, uuid: Uuid) -> Option<String> {
         let doc = self.reader.get_uri_string(uuid);
-        let uri = lsp_types::Url::parse(&doc.uri).unwrap();
-        let fileuri = uri.join(path).unwrap();
-        fileuri.to_string()
+        let uri = lsp_types::Url::parse(&doc.uri).ok()?;
+        // What the user wrote after `.include` need not be a path at all
+        let fileuri = uri.join(path).ok()?;
+        Some(fileuri.to_string())
     }
 
     /// Return the imported files of a file
@@ -50,9 +51,10 @@ where
             if let ParserNode::Directive(x) = item {
                 if let DirectiveType::Include(name) = x.dir {
                     // get full file path
-                    let this_uri = self.get_full_url(name.get(), x.dir_token.file());
-                    // add to set
-                    imported.insert(this_uri);
+                    if let Some(this_uri) = self.get_full_url(name.get(), x.dir_token.file()) {
+                        // add to set
+                        imported.insert(this_uri);
+                    }
                     // imports.insert(this_uri);
                 }
             }
